@@ -75,6 +75,7 @@ func c03(c *core.Check) {
 	c.Decide(len(cs) == 0, "capture-not-at-offset-0", "grammar/captures", "parser/thrift.peg.go", "every capture is preceded by at least one consumed character on every derivation from Document (pegText's buffer[begin-1] is in range)",
 		fmt.Sprintf("captures in %v can begin at input offset 0: pegText reads buffer[-1] and panics", cs))
 	c03nested(c, g)
+	c03annotations(c)
 	// ---- SHAPE
 	c03shape(c, g)
 	// ---- loops advance
@@ -590,4 +591,65 @@ func describeStates(d *peg.ChildDFA, states []int) []string {
 		out = append(out, "a "+strings.Join(ks, "/"))
 	}
 	return out
+}
+
+// c03annotations: parseDefinition dereferences p.Annotations (`*p.Annotations = ann`) after the definition's own parse
+// function returned without error. Rule: every function that parseDefinition's switch dispatches to assigns p.Annotations
+// on every path to a nil-error return, and the dereference is only reachable after such a call.
+func c03annotations(c *core.Check) {
+	pd := c.Prog.FuncDecl("parser", "parser.parseDefinition")
+	if pd == nil {
+		c.Unknown("anchor", "parser.(parser).parseDefinition", "", "missing")
+		return
+	}
+	info := c.Prog.Pkg("parser").TypesInfo
+	// does parseDefinition still dereference the cursor?
+	deref := false
+	ast.Inspect(pd.Body, func(n ast.Node) bool {
+		if st, ok := n.(*ast.StarExpr); ok && rules.ExprString(st.X) == "p.Annotations" {
+			deref = true
+		}
+		return true
+	})
+	if !deref {
+		c.OKTrivial("annotations-cursor-assigned", "parser.(parser).parseDefinition/deref", c.Prog.Rel(pd.Pos()), "parseDefinition no longer writes through p.Annotations")
+		return
+	}
+	var callees []*ast.FuncDecl
+	ast.Inspect(pd.Body, func(n ast.Node) bool {
+		cc, ok := n.(*ast.CaseClause)
+		if !ok {
+			return true
+		}
+		for _, call := range rules.Calls(&ast.BlockStmt{List: cc.Body}, false) {
+			if fn := rules.Callee(info, call); fn != nil && strings.HasPrefix(fn.Name(), "parse") {
+				if d := c.Prog.FuncDecl("parser", "parser."+fn.Name()); d != nil {
+					callees = append(callees, d)
+				}
+			}
+		}
+		return true
+	})
+	for _, d := range callees {
+		g := rules.CFG(info, d.Body, nil)
+		missed, targets := rules.MustPass(g, func(x ast.Node) bool {
+			as, ok := x.(*ast.AssignStmt)
+			if !ok {
+				return false
+			}
+			for _, l := range as.Lhs {
+				if rules.ExprString(l) == "p.Annotations" {
+					return true
+				}
+			}
+			return false
+		}, func(x ast.Node) bool {
+			rs, ok := x.(*ast.ReturnStmt)
+			return ok && rules.ReturnsNilError(info, rs)
+		})
+		c.Decide(targets > 0 && len(missed) == 0, "annotations-cursor-assigned", "parser."+d.Name.Name+"/p.Annotations", c.Prog.Rel(d.Pos()),
+			"p.Annotations is assigned on every path to a nil-error return",
+			d.Name.Name+" can return without error and without pointing p.Annotations at the new definition: parseDefinition then writes the trailing annotations into the previous definition (or through a nil pointer for the first one)")
+	}
+	c.Min("annotations-cursor-assigned", 7)
 }
